@@ -48,7 +48,11 @@ func init() {
 }
 
 var defaultErrorPageSrc = func() string {
-	b, err := os.ReadFile("/repo/textwire/default-error-page.tw")
+	repo := "/repo"
+	if alt := os.Getenv("VERIF_REPO"); alt != "" {
+		repo = alt
+	}
+	b, err := os.ReadFile(repo + "/textwire/default-error-page.tw")
 	if err != nil {
 		return ""
 	}
